@@ -115,6 +115,45 @@ def main():
     cases = json.load(open(sys.argv[1]))['cases']
     bad, checked = [], 0
     for case in cases:
+        if case['kind'] == 'sum':
+            # flat receivers only: sum() must be the left fold of the elements with the operator +
+            items = case['self'][1]
+            if not items or any(x[0] in ('L', 'C', 'T', 'S', 'N') for x in items):
+                continue
+            whole = run_struct(case)
+            exp = run_struct_fold(case)
+            if 'e' in whole or 'e' in exp:
+                continue
+            checked += 1
+            if whole['r'] != exp['r'] or whole['n'] != exp['n']:
+                bad.append({'case': case, 'whole': whole['r'], 'whole_units': whole['n'], 'parts': [exp['r']],
+                            'parts_units': exp['n'], 'why': 'sum() is not x0 + x1 + ... (left to right)'})
+            continue
+        if case['kind'] == 'poll':
+            # flat receiver, default labels: one Poll per channel, channel i polls self[i mod n]
+            # under the label 'ChannelList UGen [i mod n]'
+            items = case['self'][1]
+            if case['label'] != ['N'] or any(x[0] != 'U' for x in items):
+                continue
+            o = run_raw(case)
+            if o['err'] is not None:
+                continue
+            checked += 1
+            polls = [u for u in o['units'] if u[0].startswith('Poll/')]
+            n = len(items)
+            lens = [n] + [len(case[k][1]) for k in ('trig', 'tid') if is_list(case[k])]
+            why = None
+            if any(has_empty(case[k]) for k in ('trig', 'tid')):
+                continue
+            if len(polls) != max(lens) and not any(is_list(x) for k in ('trig', 'tid') if is_list(case[k]) for x in case[k][1]):
+                why = '%d Poll units for %d channels' % (len(polls), max(lens))
+            else:
+                for i, u in enumerate(polls[:max(lens)]):
+                    if len(polls) == max(lens) and u[1][3] != ['S', 'ChannelList UGen [%d]' % (i % n)]:
+                        why = 'channel %d polled under label %s' % (i, u[1][3])
+            if why:
+                bad.append({'case': case, 'whole': o['units'], 'whole_units': len(polls), 'parts': [], 'parts_units': max(lens), 'why': why})
+            continue
         if case['kind'] == 'out_ar':
             # Output units: no literal zero may reach an audio-rate output unit; what replaces it
             # must be an output of a DC(0) unit (audio-rate silence)
@@ -177,6 +216,28 @@ def main():
             bad.append({'case': case, 'whole': whole['r'], 'whole_units': whole['n'],
                         'parts': parts, 'parts_units': units, 'why': why})
     json.dump({'bad': bad, 'checked': checked}, open(sys.argv[2], 'w'))
+
+
+def run_struct_fold(case):
+    import functools, operator
+    box = {}
+    bv = _ns['build_value']
+
+    def graph():
+        sd = _m.main._current_synthdef
+        pre = make_prelude(case['pre'])
+        n0 = len(sd._children)
+        try:
+            box['r'] = struct(functools.reduce(operator.add, [bv(x, pre) for x in case['self'][1]]))
+        except Exception as e:   # noqa
+            box['e'] = type(e).__name__
+        box['n'] = len(sd._children) - n0
+        raise Abort()
+    try:
+        SynthDef('c03law', graph)
+    except Abort:
+        pass
+    return box
 
 
 def run_struct_unit(sub):
